@@ -623,7 +623,7 @@ def make_semiring(fggs, name, dtype=None):
 def build_fgg(fggs, spec, semiring='real', dtype=None, *, explicit_ids=False, rule_order=None,
               node_orders=None, edge_orders=None, rename=None, domain_kind='range', domain_values=None,
               value_perm=None, weight_builder=None, requires_grad=False, nt_decl_first=False, ghost_rng=None,
-              id_namer=None):
+              id_namer=None, start_via_setter=False):
     """Realise a spec through the public API.
 
     rename:       dict old name -> new name for node labels / edge labels (consistent renaming)
@@ -644,7 +644,14 @@ def build_fgg(fggs, spec, semiring='real', dtype=None, *, explicit_ids=False, ru
         el[t] = fggs.EdgeLabel(rn(t), [nl[l] for l in typ], is_terminal=True)
     for n, typ in spec['nonterminals'].items():
         el[n] = fggs.EdgeLabel(rn(n), [nl[l] for l in typ], is_nonterminal=True)
-    fgg = fggs.FGG(el[spec['start']])
+    other_nts = [n for n in spec['nonterminals'] if n != spec['start']]
+    if start_via_setter and other_nts:
+        # the grammar is created with another start symbol (so that one is registered first) and the real start symbol
+        # is set through the public setter once everything has been added
+        fgg = fggs.FGG(el[other_nts[-1]])
+    else:
+        start_via_setter = False
+        fgg = fggs.FGG(el[spec['start']])
     if nt_decl_first:
         for n in spec['nonterminals']:
             fgg.add_edge_label(el[n])
@@ -719,6 +726,8 @@ def build_fgg(fggs, spec, semiring='real', dtype=None, *, explicit_ids=False, ru
         else:
             dom = fggs.RangeDomain(size)
         fgg.add_domain(nl[l], dom)
+    if start_via_setter:
+        fgg.start = el[spec['start']]
     weights = {}
     for t, typ in spec['terminals'].items():
         w = weights_in(spec, t, semiring)
